@@ -822,6 +822,8 @@ type effects struct {
 	ghost    map[string]bool
 	allHeap  bool
 	alloc    bool
+	// allGlobals: package variables too ("modifies everything"); "heap" alone leaves them alone
+	allGlobals bool
 }
 
 func (fr *Frame) rootOf(v ssa.Value) (alloc *ssa.Alloc, heapT types.Type, path string, ok bool) {
